@@ -50,6 +50,15 @@ def generate(seed, tier, index):
         sys_eff = dict(si.DEFAULT_US)
     else:
         sys_eff = pus
+    spc_ = entry["phys"]["spec"]["space"]
+    skey_ = "space" if "space" in sysd else "rdspace"
+    if spc_["type"] == "grid" and rs.sub("unitvol").chance(0.15):
+        # the cell volume is one cubic unit of the space's own length unit, and the key is omitted (documented default)
+        suk = _get(sysd[skey_], ["units", "units_system", "units system", "u"])
+        sp_eff = suk if isinstance(suk, dict) else (dict(si.DEFAULT_US) if suk == "default" else sys_eff)
+        spc_["vol"] = si.factor(sp_eff, si.DIM_VOLUME)
+        for k_ in ("cell_volume", "cell_vol"):
+            sysd[skey_].pop(k_, None)
     ops = [["fs_mkdir", "a/b"], ["fs_mkdir", "c"]]
     objects = {}
     ops.append(["fs_build", "net", "network", {"d": _get(sysd, ["network", "rdnetwork"]), "pus": sys_eff}])
@@ -78,6 +87,11 @@ def generate(seed, tier, index):
         # a trajectory of a molecule-counting engine whose counts exceed the 32-bit range, stored both ways
         ops.append(["fs_build", "trjG", "trajectory", {"sidx": 2}])
         objects["trjG"] = "trajectory"
+    if rf.chance(0.2):
+        # the caller changes the state of its system object in place (no setter involved): what is saved afterwards is
+        # the object as it is now
+        ops.append(["fs_poke_state", "sys", rf.randint(0, 50), float(rf.randint(1, 9))])
+        faults.add("state_changed_in_place_before_saving") if False else None
     files = {}     # path -> object name (generator-side copy of M-fs, to draw loads)
     nfile = 0
     faults = set()
@@ -283,6 +297,9 @@ def check(case, results):
                                  detail="object '%s' changed after being saved/serialised: %s" % (op[1], "; ".join(d))))
         elif name == "fs_raw":
             files[op[2]] = op[1]
+        elif name == "fs_poke_state":
+            built[op[1]] = ev["phys"]
+            stats["state_changed_in_place_before_saving"] = 1
         elif name in ("fs_save", "fs_split"):
             pth = op[2]
             if name == "fs_save" and case["meta"]["objects"].get(op[1]) == "trajectory" and not pth.endswith(".json"):
